@@ -297,8 +297,8 @@ def check_structured(src, globals0, seed):
 
 def plan(tier):
     k = 8 if tier == 'quick' else 16
-    specs = [{'kind': 'vm', 'n': 800 if tier == 'quick' else 12000, 'k': i} for i in range(k)]
-    specs += [{'kind': 'structured', 'n': 700 if tier == 'quick' else 10000, 'k': i} for i in range(k)]
+    specs = [{'kind': 'vm', 'n': 800 if tier == 'quick' else 3000, 'k': i} for i in range(k)]
+    specs += [{'kind': 'structured', 'n': 700 if tier == 'quick' else 2500, 'k': i} for i in range(k)]
     return specs
 
 
